@@ -19,7 +19,7 @@ func init() { register("C17", checkC17) }
 const pkgEVM = "ctrlers/vm/evm"
 
 func checkC17(w *World, r *Report) {
-	r.Explanation = "Structural clause of C17 (the synchronisation protocol between go-ethereum's StateDB and the native account ledger; equivalence with the reference EVM over all programs is out of reach): (E-0) every vm.StateDB method of the wrapper delegates to the same-named method of the embedded StateDB with its arguments in order, and the block context's CanTransfer/Transfer are balance >= amount / debit sender + credit recipient of the same amount; (E-1) every way an address enters the access list (AddAddressToAccessList, PrepareAccessList for sender, destination, precompiles and listed addresses; Prepare for sender and receiver) first copies nonce and balance from the native account (FindOrNewAccount(addr, exec)) into the state object and records the address with the current snapshot + 1; (E-2) Finish writes balance and nonce of every recorded address back and marks the account, then forgets the addresses; RevertToSnapshot forgets the addresses recorded after that snapshot before delegating; Snapshot records and returns the id; (E-3) failures revert to the pre-transaction snapshot (C05 A-4); (E-4) contract transactions and transfers to accounts with code are routed to the EVM (decision table); (E-5) the read-only call runs on a scratch state at the requested height with the immutable account handler and cannot reach a durable write; the per-block wrapper is built on the last committed root with the block's account handler; (E-6) the native (precompiled) contracts the module registers never write through their input: the interpreter hands them a window of the calling contract's memory."
+	r.Explanation = "Structural clause of C17 (the synchronisation protocol between go-ethereum's StateDB and the native account ledger; equivalence with the reference EVM over all programs is out of reach): (E-0) every vm.StateDB method of the wrapper delegates to the same-named method of the embedded StateDB with its arguments in order, and the block context's CanTransfer/Transfer are balance >= amount / debit sender + credit recipient of the same amount; (E-1) every way an address enters the access list (AddAddressToAccessList, PrepareAccessList for sender, destination, precompiles and listed addresses; Prepare for sender and receiver) first copies nonce and balance from the native account (FindOrNewAccount(addr, exec)) into the state object and records the address with the current snapshot + 1; (E-2) Finish writes balance and nonce of every recorded address back and marks the account, then forgets the addresses; RevertToSnapshot forgets the addresses recorded after that snapshot before delegating; Snapshot records and returns the id; (E-3) failures revert to the pre-transaction snapshot (C05 A-4); (E-4) contract transactions and transfers to accounts with code are routed to the EVM (decision table); (E-5) the read-only call runs on a scratch state at the requested height with the immutable account handler and cannot reach a durable write; the per-block wrapper is built on the last committed root with the block's account handler; (E-7) the block's gas pool is filled once, when it is created, and after that only go-ethereum's message application takes from it or gives back to it; (E-6) the native (precompiled) contracts the module registers never write through their input: the interpreter hands them a window of the calling contract's memory."
 	r.NotCovered = "equivalence with the reference EVM for all programs; go-ethereum internals; accounts the EVM touches without adding them to the access list (pre-Berlin rules are not active)."
 	e0(w, r)
 	e1(w, r)
@@ -42,6 +42,7 @@ func checkC17(w *World, r *Report) {
 	}
 	e5(w, r)
 	e6(w, r)
+	e7(w, r)
 	r.Floor("E-0", 24, "delegating methods")
 	r.Floor("E-1", 6, "sync-in")
 	r.Floor("E-2", 5, "sync-out")
@@ -49,6 +50,7 @@ func checkC17(w *World, r *Report) {
 	r.Floor("E-4", 6, "routing rows")
 	r.Floor("E-5", 5, "read-only call and per-block wrapper")
 	r.Floor("E-6", 1, "native contracts")
+	r.Floor("E-7", 1, "gas pool")
 }
 
 var delegating = []string{"CreateAccount", "SubBalance", "AddBalance", "GetBalance", "GetNonce", "SetNonce", "GetCodeHash", "GetCode", "SetCode", "GetCodeSize",
@@ -731,4 +733,38 @@ func (w *World) writesThroughSlice(fn *ssa.Function, p ssa.Value, depth int) str
 		}
 	}
 	return ""
+}
+
+// E-7: the block gas pool belongs to go-ethereum's state transition. It is created
+// with the block gas limit (what GASLIMIT reports) and from then on ApplyMessage
+// subtracts a message's gas and returns what was not used; some of ApplyMessage's
+// errors occur before the subtraction, so module code that "gives back" on an error
+// enlarges the pool beyond the limit. Every call of a GasPool mutator in the module
+// has a freshly allocated pool as its receiver.
+func e7(w *World, r *Report) {
+	n := 0
+	for _, fn := range w.nodeFuncs() {
+		for _, c := range CallsIn(fn) {
+			cal := c.Common().StaticCallee()
+			if cal == nil || cal.Signature.Recv() == nil || !strings.HasSuffix(typeStr(cal.Signature.Recv().Type()), "core.GasPool") {
+				continue
+			}
+			switch cal.Name() {
+			case "AddGas", "SubGas", "SetGas":
+			default:
+				continue
+			}
+			n++
+			rcv, _ := callRecvArgs(c.Common())
+			fresh := false
+			if rcv != nil {
+				_, fresh = stripConv(rcv).(*ssa.Alloc)
+			}
+			key := "gas-pool:" + w.FName(fn) + ":" + cal.Name()
+			r.Check(fresh, "E-7", key, "fills a pool it has just created", "the gas pool of a block is changed by module code outside go-ethereum's message application ("+w.canonCall(c.Common(), 0)+"): what ApplyMessage did to the pool on an error depends on the error", site(w, c))
+		}
+	}
+	if n == 0 {
+		r.Undecided("E-7", "gas-pool", "no creation of a gas pool found (BeginBlock is expected to fill a fresh one with the block gas limit)")
+	}
 }
